@@ -290,6 +290,22 @@ def iface_name(ctx, it):
     return None
 
 
+SETTERS = {}   # interface -> property -> setter method called by its arm (filled by check_setter_arm)
+
+# What the fixture crate /verif/fixtures/ifaces (K6) declares: property -> (access, getter, setter, annotation).
+# `SetPoint` is the awkward one: its setter is `set_set_point`, the prefix must be removed exactly once.
+FIXTURE_PROPS = {
+    "zverif_ifaces::Ordered": {
+        "SetPoint": ("readwrite", "set_point", "set_set_point", "true"),
+        "Settings": ("readwrite", "settings", "set_settings", "true"),
+        "Fixed": ("read", "fixed", None, "const"),
+        "Secret": ("read", "secret", None, "invalidates"),
+        "Quiet": ("readwrite", "quiet", "set_quiet", "false"),
+    },
+    "zverif_ifaces::Spawning": {"Level": ("readwrite", "level", "set_level", "true")},
+}
+
+
 def check_setter_arm(ctx, it, M, name, props, emitters, getters_by_name, used):
     f = it.f
     key = "%s:set:%s" % (it.key, name)
@@ -300,6 +316,7 @@ def check_setter_arm(ctx, it, M, name, props, emitters, getters_by_name, used):
     ctx.ob("P-SET", key + ":one-setter-call-site", len(hs) == 1, "%d setter call site(s) in the arm: %s" % (len(hs), [short(c.callee) for c in hs]), where)
     if len(hs) != 1:
         return
+    SETTERS.setdefault(it.key, {})[name] = short(hs[0].callee)
     h = hs[0]
     hw = L.weights(hs)
     ew = L.weights(em_calls)
@@ -370,6 +387,7 @@ def check_setter_arm(ctx, it, M, name, props, emitters, getters_by_name, used):
 def generated(ctx, its, full=True):
     n_if = n_set = n_get = 0
     kinds_seen = set()
+    fixture_seen = set()
     for it in its:
         if not all(k in it.m for k in ("get", "get_all", "set", "set_mut", "introspect_to_writer", "name")):
             ctx.ob("P-ACCESS", it.key + ":has-property-methods", False, "Interface impl lacks get/get_all/set/set_mut bodies in the facts", it.where)
@@ -502,6 +520,23 @@ def generated(ctx, its, full=True):
         for eid, names in sorted(used.items()):
             ctx.ob("P-EMIT", "%s:emitter:%s:used-by-one-property" % (it.key, short(eid)), len(names) == 1,
                    "emitter is called by the setter arm(s) of %s" % sorted(names), emitters[eid]["where"])
+        spec = FIXTURE_PROPS.get(it.key)
+        if spec is not None:
+            fixture_seen.add(it.key)
+            got = {}
+            for nm, (acc, kind) in props.items():
+                got[nm] = (acc if isinstance(acc, str) else "".join(sorted(acc)), short(getters_by_name[nm]) if nm in getters_by_name else None,
+                           SETTERS.get(it.key, {}).get(nm), kind)
+            for nm in sorted(set(spec) | set(got)):
+                w, g = spec.get(nm), got.get(nm)
+                ok = w is not None and g is not None and ("read" in g[0]) == ("read" in w[0]) and ("write" in g[0]) == ("write" in w[0]) \
+                    and g[1] == w[1] and g[2] == w[2] and (g[3] == w[3])
+                ctx.ob("P-TABLE", "%s:fixture-declaration:%s" % (it.key, nm), ok,
+                       "declared %s, generated code implements %s" % (w, g), it.where)
+    if any(it.cfg == "K6" for it in its):
+        for k in FIXTURE_PROPS:
+            ctx.ob("P-TABLE", "fixture-interface-analysed:" + k, k in fixture_seen,
+                   "fixture interface %s found among the generated impls of K6" % k, "-")
     if not full:
         return  # K1 only: the library's own interfaces have no properties (each is checked for exactly that above)
     # MyIface (zbus/tests/iface_and_proxy/iface.rs) alone has 14 readable and 11 writable properties
